@@ -83,13 +83,21 @@ fn run_case(seed: u64, index: u64, rep: &mut Report) {
         }
         std::thread::spawn(move || {
             let mut buf = [0u8; 4096];
+            let mut stopping = false;
             loop {
                 match file.read(&mut buf) {
                     Ok(0) => break,
                     Ok(n) => received.lock().unwrap().extend_from_slice(&buf[..n]),
                     Err(_) => {
-                        if stop.load(Ordering::SeqCst) {
+                        // Empty. Once told to stop, look one more time: everything written before
+                        // the flag was set is in the pipe by now, whatever happened to this thread
+                        // between its last read and this check.
+                        if stopping {
                             break;
+                        }
+                        if stop.load(Ordering::SeqCst) {
+                            stopping = true;
+                            continue;
                         }
                         std::thread::sleep(Duration::from_micros(50));
                     }
